@@ -49,6 +49,13 @@ def directed_cases():
                         "src": [[1, 1, 0], [2, 1, 0], [3, 1, 0], [1, 1, 0], [2, 1, 0]],
                         "dst": [[], [3, 2, 0], [], [2, 2, 0], []] if not dl else [[3, 2, 0], [], [1, 2, 0], [], [3, 2, 0]],
                         "pats": pats, "del": dl, "dry": False, "dir": d, "jobs": 2})
+    # two destination names sharing one inode; the sources have the same bytes with different mtimes, or different bytes of
+    # the same size: one name is delivered, the other must stay exactly as it was, and the second run is idle
+    for d in ("local", "push", "pull"):
+        for v, (srcb, dl) in enumerate([([1, 2, 0], False), ([2, 2, 0], False), ([1, 2, 1], True), ([3, 1, 0], False)]):
+            out.append({"id": f"hardlink{v}-{d}", "names": ["a.cfg", "b.cfg", "c"], "secs": [1_700_000_000, 1_600_000_000, 5],
+                        "src": [[1, 1, 0], srcb, [2, 1, 0]], "dst": [[1, 1, 0], [1, 1, 0], []], "dst_links": [[0, 1]],
+                        "pats": [], "del": dl, "dry": False, "dir": d, "jobs": 1 + v % 2})
     return out
 
 
